@@ -37,4 +37,126 @@ def OmpTask.covers (fp : List (String × List (Nat × String × Bool))) (t : Omp
 def OmpTask.captureSafe (t : OmpTask) : Bool :=
   t.refs.all fun r => t.firstprivate.contains r || (memberNames.contains r && !t.inLambda)
 
+/-- one `runtime.task(…)` of the Specx executors, as read from the source by `tools/translate_omp.py` -/
+structure SpecxTask where
+  file : String
+  line : Nat
+  fn : String
+  inLambda : Bool                               -- submitted from inside a callback lambda
+  reads : List (String × String)                -- SpRead(*group.getXPtr())
+  commutes : List (String × String)             -- SpCommutativeWrite / SpWrite
+  modes : List Bool                             -- per declared access, in order: is it a write
+  paramConst : List Bool                        -- per parameter of the task lambda: is it `const unsigned char&`
+  byValue : List String                         -- captured by copy (plain or init-capture)
+  byRef : List String                           -- captured by reference
+  capturesThis : Bool
+  defaultRef : Bool                             -- `[&]`
+  refDecl : List String                         -- by-reference captures that are C++ references bound to objects owned by the tree
+  refs : List String
+  calls : List (String × List String)
+deriving Repr, DecidableEq
+
+/-- every buffer a wrapper call reads is declared `SpRead` or a write; every buffer it writes is declared a
+    (commutative) write -/
+def SpecxTask.covers (fp : List (String × List (Nat × String × Bool))) (t : SpecxTask) : Bool :=
+  t.calls.all fun (w, args) =>
+    match fp.lookup w with
+    | none => false
+    | some acc => acc.all fun (pi, kind, isWrite) =>
+        let g := args.getD pi ""
+        g != "" && (if isWrite then t.commutes.contains (g, kind) else (t.reads.contains (g, kind) || t.commutes.contains (g, kind)))
+
+/-- no task body uses a variable whose lifetime may have ended when the task runs: each referenced name is
+    copied into the closure, or is a member reached through the copied `this`, or is captured by reference
+    and is itself a reference bound to an object owned by the tree; no default by-reference capture -/
+def SpecxTask.captureSafe (t : SpecxTask) : Bool :=
+  !t.defaultRef && t.refs.all fun r =>
+    t.byValue.contains r || (t.byRef.contains r && t.refDecl.contains r) || (memberNames.contains r && t.capturesThis)
+
+/-- the task lambda receives a constant view exactly for the accesses declared as reads -/
+def SpecxTask.modesMatch (t : SpecxTask) : Bool :=
+  t.paramConst == t.modes.map (!·)
+
+/-! ### StarPU executors -/
+
+/-- per executor header: the index vectors handed to tasks by address live in a container with stable
+    addresses that is emptied only after the final wait -/
+structure StarpuFile where
+  file : String
+  indexBufferStable : Bool
+  clearedAfterWait : Bool
+deriving Repr, DecidableEq
+
+structure StarpuCodelet where
+  file : String
+  name : String
+  callback : String
+  modes : List Bool                             -- per buffer: is it a write access
+deriving Repr, DecidableEq
+
+/-- a task callback: which StarPU buffer backs which part of each container it rebuilds, and the wrapper calls -/
+structure StarpuCallback where
+  name : String
+  unpackTypes : List String
+  containers : List (String × List (String × Nat))   -- container ↦ (buffer kind ↦ index in `buffers[]`)
+  calls : List (String × List String)
+deriving Repr, DecidableEq
+
+/-- one `starpu_insert_task` -/
+structure StarpuTask where
+  file : String
+  line : Nat
+  fn : String
+  codelet : String
+  handles : List (Bool × String × String × Nat)  -- (write?, handle container, group index expression, slot)
+  values : List (String × String × String)       -- STARPU_VALUE: (variable, what it designates, sizeof type)
+deriving Repr, DecidableEq
+
+def StarpuTask.codeletOf (cs : List StarpuCodelet) (t : StarpuTask) : Option StarpuCodelet :=
+  cs.find? fun c => c.file == t.file && c.name == t.codelet
+
+def StarpuTask.callbackOf (cs : List StarpuCodelet) (cbs : List StarpuCallback) (t : StarpuTask) : Option StarpuCallback :=
+  match t.codeletOf cs with
+  | none => none
+  | some c => cbs.find? fun cb => cb.name == c.callback
+
+/-- the handles submitted with a task have the access modes its codelet declares, and every buffer a wrapper
+    call of the callback touches is backed by a submitted handle that was registered for that very buffer
+    kind of one and the same group, with a write mode when the wrapper writes -/
+def StarpuTask.covers (fp : List (String × List (Nat × String × Bool))) (layouts : List ((String × String × String) × List String))
+    (cs : List StarpuCodelet) (cbs : List StarpuCallback) (t : StarpuTask) : Bool :=
+  match t.codeletOf cs, t.callbackOf cs cbs with
+  | some c, some cb =>
+    c.modes == t.handles.map (·.1) &&
+    cb.calls.all fun (w, args) =>
+      match fp.lookup w with
+      | none => false
+      | some acc => acc.all fun (pi, kind, isWrite) =>
+          match cb.containers.lookup (args.getD pi "") with
+          | none => false
+          | some slots =>
+            match slots.lookup kind with
+            | none => false
+            | some j =>
+              match t.handles[j]? with
+              | none => false
+              | some (wr, arr, idx, slot) =>
+                ((layouts.lookup (t.file, t.fn, arr)).getD []).getD slot "" == kind && (!isWrite || wr) &&
+                slots.all fun (_, j') =>
+                  match t.handles[j']? with
+                  | some (_, arr', idx', _) => arr' == arr && idx' == idx
+                  | none => false
+  | _, _ => false
+
+/-- what a task receives by value designates something that outlives it: the executor, a buffer of the
+    tree, a copied scalar, or an index vector kept in the stable buffer until after the final wait; and the
+    callback unpacks the values with the types they were packed with -/
+def StarpuTask.valuesSafe (files : List StarpuFile) (cs : List StarpuCodelet) (cbs : List StarpuCallback) (t : StarpuTask) : Bool :=
+  (t.values.all fun (_, cls, _) =>
+    cls == "this" || cls == "scalar" || cls == "treeptr" ||
+      (cls == "indexbuf" && files.any fun f => f.file == t.file && f.indexBufferStable && f.clearedAfterWait)) &&
+  match t.callbackOf cs cbs with
+  | some cb => cb.unpackTypes == t.values.map (·.2.2)
+  | none => false
+
 end Tbfmm
